@@ -31,6 +31,8 @@ type Mem struct {
 	WriteHook func(name string, off int64, p []byte)
 	// AfterWrite, if set, is called after the bytes are in place.
 	AfterWrite func(name string, off int64, p []byte)
+	// FailWrite, if set, is consulted before each write: a non-nil error is returned to the caller and nothing is written.
+	FailWrite func(name string, off int64, p []byte) error
 }
 
 func NewMem() *Mem { return &Mem{Files: map[string]*MemFile{}} }
@@ -126,6 +128,11 @@ func (f *MemFile) ReadAt(p []byte, off int64) (int, error) {
 func (f *MemFile) WriteAt(p []byte, off int64) (int, error) {
 	if h := f.m.WriteHook; h != nil {
 		h(f.Name, off, p)
+	}
+	if h := f.m.FailWrite; h != nil {
+		if err := h(f.Name, off, p); err != nil {
+			return 0, err
+		}
 	}
 	f.m.mu.Lock()
 	f.m.record("write", f.Name, off, p)
